@@ -26,8 +26,8 @@ from ..lib import cz, cb, cl, ce, CN, cbool, coq_bytes
 from ..msggen import Cls, Elem, Field, Schema, scalar
 
 IMPORTS = ("Model.Types Model.Object Model.Eq Model.Encode Model.Decode Model.Canon Model.WellFormed Model.History "
-           "Model.C14Ops gen.Tables")
-EXTRA_TARGETS = ["Model/Canon.vo", "Model/C14Ops.vo"]
+           "Model.C14Ops Model.C14Pickle Model.C14UDef gen.Tables")
+EXTRA_TARGETS = ["Model/Canon.vo", "Model/C14Ops.vo", "Model/C14Pickle.vo", "Model/C14UDef.vo"]
 CORPUS = os.path.join(lib.VERIF, "corpus", "C14-regress.json")
 
 TRUSTED = [
@@ -41,8 +41,11 @@ TRUSTED = [
     "translator harness/gen_tables.py (type tables reflected into coq/gen/Tables.v)",
     "object identity / aliasing is NOT modelled (values are trees): independence of deep and unpickled copies is checked on the "
     "implementation only (mutation of the copy through every path, original re-snapshotted)",
-    "pickle: the equality / byte-identity part is the C01 round trip (taken as a premise by C14_pickle); CPython's pickle calling "
-    "__reduce__ and applying FromString is trusted",
+    "pickle: C14_pickle (equality in both operand orders, byte identity, unknown bytes of the top-level message, presence at every "
+    "path) is proved from the C01 round trip (Properties/C01.v) and C08's unknown-field theorems under the decidable hypotheses "
+    "pickle_pre / pickle_pre_u (unknown bytes at any depth, Model/C14UDef.v) / sow_ok / flags_ok (Model/C14Pickle.v), which the check "
+    "evaluates on every generated pickle case (counts in the "
+    "input distribution: pickle_theorem_hypotheses:*); CPython's pickle calling __reduce__ and applying FromString is trusted",
 ]
 ASSUMPTIONS = [
     "Python int is Z; str is its UTF-8 bytes (no lone surrogates); float is its binary64 pattern; aware datetimes are microseconds since the epoch",
@@ -389,6 +392,7 @@ class Run:
         self.schemas = []
         self.pairs = []
         self.meta = []
+        self.probes = []      # (expr : cv of a boolean, label): how often the hypotheses of the pickle theorems hold
 
     def add_schema(self, s):
         self.schemas.append(s)
@@ -569,9 +573,27 @@ def run_history(R, si, ci, m, ops, rng, label, second_round=True, in_range=True)
             except msggen.Unmodellable:
                 continue
             R.case(f"(let a := {before} in cv_obj_res ({model_fn}))", f"(cv_of_obj {rl})", {"what": kind, "info": info(), "si": si})
+            if kind != "pickle":
+                # the side condition of the copy / deepcopy theorems (one raw attribute per declared field, recursively)
+                R.case(f"(let a := {before} in cbool (shaped_obj {sc} a))", cbool(True),
+                       {"what": "shaped_obj (hypothesis of the copy theorems) on a real object", "info": info(), "si": si})
             if kind == "pickle":
                 R.case(f"(let a := {before} in let b := {after} in CL [cbool (cv_eqb (cv_of_obj (touch {sc} a)) (cv_of_obj b))])",
                        cl([cbool(True)]), {"what": "state of the original after pickle", "info": info(), "si": si})
+                # the hypotheses of C14_pickle (one boolean each, Model/C14Pickle.v) on the state that was pickled, and the
+                # conclusion about presence at every path, evaluated on the snapshot of the REAL unpickled object
+                has_unk = bool(object.__getattribute__(m, "_unknown_fields"))
+                nested_unk = has_nested_unknown(m)
+                tag = ":with_nested_unknown_fields" if nested_unk else ":with_unknown_fields" if has_unk else ""
+                for pre in ("pickle_pre", "pickle_pre_u", "pickle_pre_u_deep"):
+                    R.probes.append((f"(let a := {before} in cbool ({pre} {sc} a))", pre + tag))
+                for _ in range(1):
+                    steps, _rep = gen_presence_path(s, ci, m, rng)
+                    pth = "[" + "; ".join(steps) + "]"
+                    R.case(f"(let a := {before} in let b := {rl} in cbool (implb (orb (pickle_pre_deep {sc} a) (pickle_pre_u_deep {sc} a)) "
+                           f"(cv_eqb (cv_presence (presence_below {sc} b {pth})) (cv_presence (presence_below {sc} a {pth})))))",
+                           cbool(True), {"what": "C14_pickle: presence of the real unpickled object at a path, under the theorem's hypotheses",
+                                         "info": info(), "si": si})
             # ---- oracle: the copy is faithful
             measr = measure(r, probes, depth)
             problems = []
@@ -633,6 +655,37 @@ def run_history(R, si, ci, m, ops, rng, label, second_round=True, in_range=True)
 
 
 # --------------------------------------------------------------------------------------------------
+def nested_messages(s, ci, m, depth=0):
+    """(class index, message) for every message held inside m (singular, list elements, map values), recursively"""
+    import betterproto as bp
+    out = []
+    if depth > 6:
+        return out
+    for f in s.classes[ci].fields:
+        if f.elem.kind != "msg":
+            continue
+        raw = object.__getattribute__(m, f.name)
+        kids = [raw] if isinstance(raw, bp.Message) else list(raw) if isinstance(raw, list) else \
+            list(raw.values()) if isinstance(raw, dict) else []
+        for x in kids:
+            if isinstance(x, bp.Message):
+                out.append((f.elem.ref, x))
+                out.extend(nested_messages(s, f.elem.ref, x, depth + 1))
+    return out
+
+
+def has_nested_unknown(m):
+    import betterproto as bp
+    for f in dataclasses.fields(m):
+        raw = object.__getattribute__(m, f.name)
+        kids = [raw] if isinstance(raw, bp.Message) else list(raw) if isinstance(raw, list) else \
+            list(raw.values()) if isinstance(raw, dict) else []
+        for x in kids:
+            if isinstance(x, bp.Message) and (object.__getattribute__(x, "_unknown_fields") or has_nested_unknown(x)):
+                return True
+    return False
+
+
 def build_value(s, ci, rng, how, in_range):
     import betterproto as bp
     c = s.classes[ci]
@@ -640,6 +693,11 @@ def build_value(s, ci, rng, how, in_range):
     if how == "constructed":
         return m
     if how == "decoded":
+        # unknown records inside nested messages as well: what a decoder of an older schema holds at any depth
+        if rng.random() < 0.4:
+            for cj, x in nested_messages(s, ci, m):
+                if rng.random() < 0.4:
+                    object.__setattr__(x, "_unknown_fields", msggen.gen_unknown(rng, {f.number for f in s.classes[cj].fields}))
         try:
             bs = bytes(m)
         except Exception:  # noqa
@@ -778,6 +836,19 @@ def run(ctx):
         lib.build(ctx, ["Properties/C14.vo"] + EXTRA_TARGETS)
         bad = lib.coq_compare(ctx, "c14r", IMPORTS, R.pairs, chunk=60, prelude=prelude)
     ctx.notes.append(f"coq phase took {time.time() - ctx.t0 - t_py:.1f}s")
+    # how often the hypotheses of the pickle theorems hold on what was generated (mismatch with `true` = does not hold;
+    # these are measurements, not failures)
+    if R.probes:
+        before_n = ctx.cov["traces_validated_against_impl"]
+        try:
+            no = set(lib.coq_compare(ctx, "c14pre", IMPORTS, [(e, cbool(True)) for e, _ in R.probes], chunk=60, prelude=prelude))
+        except RuntimeError as e:
+            ctx.fail("corr", "the hypotheses of the pickle theorems cannot be evaluated: " + str(e)[-600:], no_input=True,
+                     theorem_or_correspondence="C14_pickle")
+            no = set(range(len(R.probes)))
+        ctx.cov["traces_validated_against_impl"] = before_n
+        for i, (_, label) in enumerate(R.probes):
+            ctx.count("pickle_theorem_hypotheses:" + label + (":hold" if i not in no else ":do_not_hold"))
     for i in bad[:12]:
         meta = R.meta[i]
         ctx.fail("corr", f"model and implementation disagree: {meta['what']}", input=meta["info"],
@@ -793,9 +864,10 @@ def finish(ctx):
         "Coq theorems over a Gallina mirror of the observers' effect on the raw state (lazy-default write-back), of copy / deepcopy / pickle, "
         "of Message.__eq__ and of the encoder + executable correspondence (vm_compute) with the implementation on histories",
         ASSUMPTIONS, TRUSTED, RULE,
-        extra_cov={"explanation": "theorems are unbounded (all well-formed schemas, all object states, all finite observer sequences); "
-                                  "the correspondence and the oracle sample schemas, values and histories; independence of deep / "
-                                  "unpickled copies is checked on the implementation only (partial)"})
+        extra_cov={"explanation": "theorems are unbounded (all well-formed schemas, all object states, all finite observer sequences, all "
+                                  "histories over the operation alphabet after a copy); the correspondence and the oracle sample schemas, "
+                                  "values and histories; independence of deep / unpickled copies is checked on the implementation only "
+                                  "(partial)"})
 
 
 def replay(ctx, obj):
